@@ -16,8 +16,7 @@ import (
 // real StressRelief picks it up at its next Recalc tick).
 
 func init() {
-	c17 := registry["C17"]
-	Register(&Check{ID: "C16", World: "B/cluster", Gen: genStressB, Run: runStressB, Real: c17.Real, Stub: c17.Stub,
+	Register(&Check{ID: "C16", World: "B/cluster", Gen: genStressB, Run: runStressB, Real: bReal, Stub: bStub,
 		OwnProbes: []string{"stressed_span_kept", "stressed_span_dropped", "stressed_on_non_owner_kept", "late_span_after_relief_on_owner", "probe_sent_to_owner", "both_entry_and_owner_stressed"}})
 }
 
